@@ -164,11 +164,26 @@ fn open(ep: &Value) -> anyhow::Result<(Box<dyn DynL>, Option<tempfile::NamedTemp
     let chunk = ep.get("chunk").and_then(|v| v.as_u64()).unwrap_or(0) as usize;
     let frames = ep.get("frames").and_then(|v| v.as_u64()).unwrap_or(1) as usize;
     let level = ep.get("level").and_then(|v| v.as_i64()).unwrap_or(3) as i32;
-    let payload = if kind.starts_with("zstd") || kind.starts_with("gzip") {
+    let mut payload = if kind.starts_with("zstd") || kind.starts_with("gzip") {
         compress(kind, &input, chunk, frames, level)?
     } else {
         input
     };
+    // a damaged compressed stream (episode field `corrupt`): cut `trunc` bytes off
+    // the end and/or flip the byte `flip` positions before the end. What the
+    // first pass yields (lines, then an error) is the reference for every later pass.
+    if let Some(c) = ep.get("corrupt") {
+        let t = c.get("trunc").and_then(|v| v.as_u64()).unwrap_or(0) as usize;
+        let keep = payload.len().saturating_sub(t);
+        payload.truncate(keep);
+        if let Some(f) = c.get("flip").and_then(|v| v.as_u64()) {
+            let n = payload.len();
+            if n > 0 {
+                let k = n - 1 - (f as usize).min(n - 1);
+                payload[k] ^= 0x55;
+            }
+        }
+    }
     let on_file = kind.ends_with("_file") || kind.ends_with("_path");
     let mut tmp = None;
     if on_file {
@@ -216,6 +231,9 @@ pub fn run(ep: &Value, ctx: &mut Ctx) {
     // episode-level fields the trace specification needs (always present)
     for (k, d) in [("kind", json!("?")), ("input", json!([])), ("items", json!([])), ("n", json!(0)), ("take", json!([]))] {
         hdr[k] = ep.get(k).cloned().unwrap_or(d);
+    }
+    if let Some(c) = ep.get("corrupt") {
+        hdr["corrupt"] = c.clone();
     }
     ctx.begin(&hdr);
     ctx.emit(&hdr, "ret", json!({}));
